@@ -27,6 +27,14 @@ FIXTURES = [
     ("C17", "C17-B-max-time-truthiness"),      # R7: optional limits are compared with None
     ("C18", "C18-B-verification-rule-fixed-children"),  # J3b: re-application passes only the saved class
     ("C13", "C13-B-eq-path-skipped-for-ancestors"),     # B12: path checked on every visit
+    ("C17", "C17-B-Y1-method-as-truth-value"),  # Y1: a method object is always true
+    ("C17", "C17-B-Y5-class-level-set"),        # Y5: no class-level container written through instances
+    ("C17", "C17-B-Y10-getstate-drops-staging"),  # Y10: pickle hooks carry the whole dictionary
+    ("C17", "C17-B-Y4-mutable-default-kept"),   # Y4: no kept mutable default
+    ("C17", "C17-B-Y6-memo-by-id"),             # Y6: no id()/hash() key
+    ("C12", "C12-B-F13-regress"),               # B15: assumed matches are withdrawn
+    ("C13", "C13-B-path-left-behind-on-failure"),  # B14: bookkeeping stacks are balanced
+    ("C13", "C13-B-second-search-pinned-to-base"),  # D1: no call pinned to the base class
 ]
 
 
